@@ -24,14 +24,14 @@ if os.path.isdir(sd):
         mp = os.path.join(sd, d, "meta.json")
         if os.path.exists(mp):
             m = json.load(open(mp))
-            seeded.append("| %s | %s | %s | %s | %s |" % (d, m.get("property"), m.get("summary", "").replace("|", "/"), m.get("verdict", ""), ", ".join(m.get("caught_by_rules", [])) or "—"))
+            seeded.append("| %s | %s | %s | %s | %s | %s |" % (d, m.get("property"), m.get("summary", "").replace("|", "/"), m.get("verdict", ""), ", ".join(m.get("caught_by_rules", [])) or "—", ("missed at first: " + m.get("strengthening", "")) if m.get("initially_missed") else "caught as built"))
 txt = "\n".join(lines)
 s = open(os.path.join(V, "DESIGN.md")).read()
 a, b = "<!-- BEGIN GENERATED rule-mutant table -->", "<!-- END GENERATED rule-mutant table -->"
 s = s[:s.index(a) + len(a)] + "\n" + txt + "\n" + s[s.index(b):]
 a2, b2 = "<!-- BEGIN GENERATED seeded table -->", "<!-- END GENERATED seeded table -->"
 if a2 in s:
-    t2 = "| seeded change | property | what it does | verdict | reported by |\n|---|---|---|---|---|\n" + "\n".join(seeded)
+    t2 = "| seeded change | property | what it does | verdict | reported by | history |\n|---|---|---|---|---|---|\n" + "\n".join(seeded)
     s = s[:s.index(a2) + len(a2)] + "\n" + t2 + "\n" + s[s.index(b2):]
 open(os.path.join(V, "DESIGN.md"), "w").write(s)
 print("tables written:", len(lines) - 2, "rule rows,", len(seeded), "seeded rows")
